@@ -73,7 +73,10 @@ FAMILIES = {
     "ws": (30, 300, 36, {"p_noskip": 0.5, "p_user_ws": 0.4, "p_include": 0.5}),
     "hooks": (30, 300, 24, {"p_hooks": 1.0, "p_ctx": 0.4}),
     "include": (40, 400, 28, {"p_include": 1.0, "p_noskip": 0.4, "p_frag_dir": 0.8}),
+    "derives": (16, 160, 12, {"p_memo": 0.3, "p_leftrec": 0.2, "p_ctx": 0.0}),
 }
+
+DERIVE_SETS = [["Debug", "Clone", "PartialEq", "Eq"], ["Clone", "Debug"], ["Debug", "Clone", "PartialEq", "Eq", "Hash"], ["Debug"]]
 
 
 def strip_memo(text):
@@ -86,13 +89,18 @@ def make_grammars(seed, tier):
         n = nq if tier == "quick" else nt
         fseed = (seed * 7919 + sum(ord(c) for c in fam)) & 0x7FFFFFFF
         for i in range(n):
+            derives = None
+            if fam == "derives":
+                derives = DERIVE_SETS[i % len(DERIVE_SETS)]
+                if "Clone" not in derives:
+                    kw = dict(kw, p_memo=0.0, p_leftrec=0.0)
             gg = gen.make(fseed, i, gen.Opts(**kw))
             text = gg.text()
             gid = "g%s%d" % (fam[0], i)
             meta = {"family": fam, "ctx": gg.ctx, "memo": "@memoize" in text, "leftrec": "@leftrec" in text,
                     "user_ws": gg.user_ws, "hooks": ("@check" in text or "@extern" in text),
                     "include": (">F" in text), "ninp": ninp}
-            g = genrun.G(gid, text, ctx=gg.ctx, meta=meta)
+            g = genrun.G(gid, text, ctx=gg.ctx, derives=derives, meta=meta)
             g.gg = gg
             gs.append(g)
             if meta["memo"] and not meta["ctx"]:
@@ -120,6 +128,15 @@ def make_grammars(seed, tier):
     return gs
 
 
+def derive_arg(g):
+    d = ["Debug", "Clone"] if g.derives is None else g.derives
+    return ",".join(x.encode().hex() for x in d) or "-"
+
+
+def ctx_arg(g):
+    return ",".join(x.encode().hex() for x in ["crate", "hooks", "Ctx"]) if g.ctx else "-"
+
+
 class Case:
     __slots__ = ("g", "rule", "inp", "impl", "model", "spec")
 
@@ -133,6 +150,19 @@ def build(seed, tier, log=vp.log):
     src = os.path.join(STREAM, "src-%s" % tier)
     genrun.prepare(front, gs, src)
     log("stream: %d grammars prepared in %.1fs" % (len(gs), time.time() - t0))
+    # the compiler model's answer for every grammar the front end reads, and exact-type assertions from it
+    from . import assertgen
+    withsx = [g for g in gs if g.sexpr]
+    creq = ["grammar\t%s\t%s" % (g.gid, g.sexpr) for g in withsx]
+    creq += ["compile\t%s\t%s\t%s" % (g.gid, derive_arg(g), ctx_arg(g)) for g in withsx]
+    cout = vp.pipe_lines(model, creq)[len(withsx):]
+    for g, a in zip(withsx, cout):
+        g.mcompile = a
+        if a.startswith("OK\t") and g.gen == "CODE":
+            try:
+                g.assert_code = assertgen.assertions(a.split("\t")[1])
+            except Exception as e:  # noqa
+                g.assert_code = None
     exes = genrun.build(gs, "stream-%s" % tier)
     log("stream: shards built, %.1fs" % (time.time() - t0))
     # inputs: per (grammar family member) and exported rule; twins share their origin's inputs
